@@ -1469,7 +1469,9 @@ enhance(vbi_decoder *vbi,
 	es.active_column = 0;
 	es.active_row = 0;
 
-	es.acp = &pg->text[(inv_row + 0) * EXT_COLUMNS];
+	/* enhance_flush() ignores rows >= ROWS, do not form a
+	   pointer outside pg->text[] for them. */
+	es.acp = &pg->text[MIN (inv_row, ROWS - 1) * EXT_COLUMNS];
 
 	offset_column = 0;
 	offset_row = 0;
@@ -1594,7 +1596,8 @@ enhance(vbi_decoder *vbi,
 				es.active_row = row;
 				es.active_column = column;
 
-				es.acp = &pg->text[(es.inv_row + es.active_row) * EXT_COLUMNS];
+				es.acp = &pg->text[MIN (es.inv_row + es.active_row, ROWS - 1)
+						   * EXT_COLUMNS];
 
 				break;
 
